@@ -1,5 +1,4 @@
 import Goyang.Spec.Uses
-import Goyang.Lemmas.Deviate
 /-
 Lemmas for C06 (every use of a grouping is an independent, faithful, locally scoped copy).
 
